@@ -191,6 +191,15 @@ static void *cstr(const unsigned char *p, size_t n) {     /* NUL-terminated */
     if (ncrange < 8) { crange[ncrange].p = q; crange[ncrange].n = n + 1; ncrange++; }
     return q;
 }
+/* text for the formatted methods: len characters; even len: "%s" with a caller string of that length, odd len: "%0*d" (zero padded 7) */
+static char *ftext(size_t len) {
+    unsigned char *q = __real_malloc(len + 1);
+    for (size_t i = 0; i < len; i++) q[i] = (unsigned char)('a' + i % 26);
+    q[len] = 0;
+    if (ncrange < 8) { crange[ncrange].p = q; crange[ncrange].n = len + 1; ncrange++; }
+    return (char *)q;
+}
+#define FMTCALL(call_s, call_d) do { if (flen % 2 == 0) { r = call_s; } else { r = call_d; } } while (0)
 static void cfree(void *p, size_t n) { if (!p) return; memset(p, 0x5A, n ? n : 1); __real_free(p); }
 
 /* returned copies that are kept and re-inspected later (C12) */
@@ -368,6 +377,8 @@ static int do_op(int which, inst_t *I, const char *op, int *perr) {
     switch (ctype) {
     case T_TREE: { qtreetbl_t *t = I->c;
         if (!strcmp(op, "put")) { void *k = cbuf(b1, n1), *v = n2 ? cbuf(b2, n2) : NULL; ENTER; bool r = qtreetbl_putobj(t, k, n1, v, n2); LEAVE; cfree(k, n1); cfree(v, n2); BOOLRES(r); }
+        else if (!strcmp(op, "putstrf")) { char *k = cstr(b1, n1); size_t flen = (size_t)atol(a2); char *tx = ftext(flen); bool r; ENTER;
+            FMTCALL(qtreetbl_putstrf(t, k, "%s", tx), qtreetbl_putstrf(t, k, "%0*d", (int)flen, 7)); LEAVE; cfree(k, n1 + 1); cfree(tx, flen + 1); BOOLRES(r); }
         else if (!strcmp(op, "get")) { void *k = cbuf(b1, n1); size_t ds = 0; ENTER; void *d = qtreetbl_getobj(t, k, n1, &ds, true); LEAVE; cfree(k, n1); PTRRES(d, ds); }
         else if (!strcmp(op, "remove")) { void *k = cbuf(b1, n1); ENTER; bool r = qtreetbl_removeobj(t, k, n1); LEAVE; cfree(k, n1); BOOLRES(r); }
         else if (!strcmp(op, "min") || !strcmp(op, "max")) { size_t ns = 0; ENTER; void *n = op[1] == 'i' ? qtreetbl_find_min(t, &ns) : qtreetbl_find_max(t, &ns); LEAVE; PTRRES(n, ns); }
@@ -385,6 +396,8 @@ static int do_op(int which, inst_t *I, const char *op, int *perr) {
         break; }
     case T_HASH: { qhashtbl_t *t = I->c;
         if (!strcmp(op, "put")) { char *k = cstr(b1, n1); void *v = cbuf(b2, n2); ENTER; bool r = qhashtbl_put(t, k, v, n2); LEAVE; cfree(k, n1 + 1); cfree(v, n2); BOOLRES(r); }
+        else if (!strcmp(op, "putstrf")) { char *k = cstr(b1, n1); size_t flen = (size_t)atol(a2); char *tx = ftext(flen); bool r; ENTER;
+            FMTCALL(qhashtbl_putstrf(t, k, "%s", tx), qhashtbl_putstrf(t, k, "%0*d", (int)flen, 7)); LEAVE; cfree(k, n1 + 1); cfree(tx, flen + 1); BOOLRES(r); }
         else if (!strcmp(op, "get")) { char *k = cstr(b1, n1); size_t ds = 0; ENTER; void *d = qhashtbl_get(t, k, &ds, true); LEAVE; cfree(k, n1 + 1); PTRRES(d, ds); }
         else if (!strcmp(op, "remove")) { char *k = cstr(b1, n1); ENTER; bool r = qhashtbl_remove(t, k); LEAVE; cfree(k, n1 + 1); BOOLRES(r); }
         else if (!strcmp(op, "next")) { ENTER; bool r = qhashtbl_getnext(t, &I->hcur, true); LEAVE;
@@ -396,6 +409,8 @@ static int do_op(int which, inst_t *I, const char *op, int *perr) {
         break; }
     case T_LTBL: { qlisttbl_t *t = I->c;
         if (!strcmp(op, "put")) { char *k = cstr(b1, n1); void *v = cbuf(b2, n2); ENTER; bool r = qlisttbl_put(t, k, v, n2); LEAVE; cfree(k, n1 + 1); cfree(v, n2); BOOLRES(r); }
+        else if (!strcmp(op, "putstrf")) { char *k = cstr(b1, n1); size_t flen = (size_t)atol(a2); char *tx = ftext(flen); bool r; ENTER;
+            FMTCALL(qlisttbl_putstrf(t, k, "%s", tx), qlisttbl_putstrf(t, k, "%0*d", (int)flen, 7)); LEAVE; cfree(k, n1 + 1); cfree(tx, flen + 1); BOOLRES(r); }
         else if (!strcmp(op, "get")) { char *k = cstr(b1, n1); size_t ds = 0; ENTER; void *d = qlisttbl_get(t, k, &ds, true); LEAVE; cfree(k, n1 + 1); PTRRES(d, ds); }
         else if (!strcmp(op, "getmulti")) { char *k = cstr(b1, n1); size_t no = 0; ENTER; qlisttbl_data_t *m = qlisttbl_getmulti(t, k, true, &no); LEAVE; cfree(k, n1 + 1);
             if (m) { fprintf(rf, "n=%zu ", no); ret[nret++] = m; for (size_t i = 0; i < no && m[i].type == 2; i++) { if (i) fputc(',', rf); puthex(rf, m[i].data, m[i].size); if (nret < 127) ret[nret++] = m[i].data; } }
@@ -460,6 +475,8 @@ static int do_op(int which, inst_t *I, const char *op, int *perr) {
     case T_GROW: { qgrow_t *g = I->c;
         if (!strcmp(op, "add")) { void *v = cbuf(b1, n1); ENTER; bool r = qgrow_add(g, v, n1); LEAVE; cfree(v, n1); BOOLRES(r); }
         else if (!strcmp(op, "addstr")) { char *v = cstr(b1, n1); ENTER; bool r = qgrow_addstr(g, v); LEAVE; cfree(v, n1 + 1); BOOLRES(r); }
+        else if (!strcmp(op, "addstrf")) { size_t flen = (size_t)atol(a1); char *tx = ftext(flen); bool r; ENTER;
+            FMTCALL(qgrow_addstrf(g, "%s", tx), qgrow_addstrf(g, "%0*d", (int)flen, 7)); LEAVE; cfree(tx, flen + 1); BOOLRES(r); }
         else if (!strcmp(op, "toarray")) { size_t ds = 0; ENTER; void *d = qgrow_toarray(g, &ds); LEAVE; PTRRES(d, ds); }
         else if (!strcmp(op, "tostring")) { ENTER; char *d = qgrow_tostring(g); LEAVE; PTRRES(d, d ? strlen(d) + 1 : 0); }
         else if (!strcmp(op, "clear")) { ENTER; qgrow_clear(g); LEAVE; fprintf(rf, "ok"); }
@@ -468,6 +485,8 @@ static int do_op(int which, inst_t *I, const char *op, int *perr) {
         break; }
     case T_HARR: { qhasharr_t *t = I->c;
         if (!strcmp(op, "put")) { char *k = cstr(b1, n1); void *v = cbuf(b2, n2); ENTER; bool r = qhasharr_put(t, k, v, n2); LEAVE; cfree(k, n1 + 1); cfree(v, n2); BOOLRES(r); }
+        else if (!strcmp(op, "putstrf")) { char *k = cstr(b1, n1); size_t flen = (size_t)atol(a2); char *tx = ftext(flen); bool r; ENTER;
+            FMTCALL(qhasharr_putstrf(t, k, "%s", tx), qhasharr_putstrf(t, k, "%0*d", (int)flen, 7)); LEAVE; cfree(k, n1 + 1); cfree(tx, flen + 1); BOOLRES(r); }
         else if (!strcmp(op, "get")) { char *k = cstr(b1, n1); size_t ds = 0; ENTER; void *d = qhasharr_get(t, k, &ds); LEAVE; cfree(k, n1 + 1); PTRRES(d, ds); }
         else if (!strcmp(op, "remove")) { char *k = cstr(b1, n1); ENTER; bool r = qhasharr_remove(t, k); LEAVE; cfree(k, n1 + 1); BOOLRES(r); }
         else if (!strcmp(op, "next")) { qhasharr_obj_t o; memset(&o, 0, sizeof o); ENTER; bool r = qhasharr_getnext(t, &o, &I->acur); LEAVE;
